@@ -167,6 +167,28 @@ namespace bloch::compiler {
 
         // A class reference or an array is never acceptable where a primitive is declared. Their
         // primitive tag is 'Unknown', which the primitive comparison treats as "matches anything".
+        // every path through the statement ends in a 'return': a return, a block containing such
+        // a statement, an if with an else or a conditional statement whose branches both do
+        bool alwaysReturns(Statement* s) {
+            if (!s)
+                return false;
+            if (dynamic_cast<ReturnStatement*>(s))
+                return true;
+            if (auto block = dynamic_cast<BlockStatement*>(s)) {
+                for (auto& st : block->statements)
+                    if (alwaysReturns(st.get()))
+                        return true;
+                return false;
+            }
+            if (auto ifs = dynamic_cast<IfStatement*>(s))
+                return ifs->elseBranch && alwaysReturns(ifs->thenBranch.get()) &&
+                       alwaysReturns(ifs->elseBranch.get());
+            if (auto tern = dynamic_cast<TernaryStatement*>(s))
+                return alwaysReturns(tern->thenBranch.get()) &&
+                       alwaysReturns(tern->elseBranch.get());
+            return false;
+        }
+
         bool nonPrimitiveIntoPrimitive(const SemanticAnalyser::TypeInfo& expected,
                                        const SemanticAnalyser::TypeInfo& actual) {
             return expected.className.empty() && expected.value != ValueType::Unknown &&
@@ -3463,6 +3485,12 @@ namespace bloch::compiler {
             if (!m_foundReturn) {
                 throw BlochError(ErrorCategory::Semantic, node.line, node.column,
                                  "Non-void function must have a 'return' statement.");
+            }
+            // "must return along all paths": a path that falls off the end made the call yield
+            // an empty value ('int k = f(0);' printed an empty line)
+            if (!alwaysReturns(node.body.get())) {
+                throw BlochError(ErrorCategory::Semantic, node.line, node.column,
+                                 "Non-void function must return a value along every path.");
             }
         }
     }
